@@ -262,7 +262,7 @@ def _optimize_core_adaptive(Q1, Q2, i1, i2, y_trn, Yl, Yr, e, r, lamb, w,
     shapeQ1 = Q1.shape[:2]
     shapeQ2 = Q2.shape[1:]
 
-    Q = np.empty((Q1.shape[0], Q1.shape[1], Q2.shape[1], Q2.shape[2]))
+    Q = np.zeros((Q1.shape[0], Q1.shape[1], Q2.shape[1], Q2.shape[2]))
 
     cache = {} if cache is None else cache
 
